@@ -16,7 +16,8 @@
 // item types every slot of the internal array outside the window (read through GetRawArrayPointer) must hold the default
 // item ("never exposes stale items": a removed owning item must be gone); the ring position (capacity, head offset, size)
 // every call met is recorded and reported as coverage.  Item types: int (trivially copyable), String (owning, move = swap),
-// Tok (owning, copy-only: std::move() degrades to a copy, as for any class written before C++11).
+// Tok (owning, copy-only: std::move() degrades to a copy, as for any class written before C++11), uint8 and uint16 (trivially copyable; their inline buffer
+// has 8 / 4 slots, not SMALL_QUEUE_SIZE: ACTUAL_SMALL_QUEUE_SIZE depends on sizeof(ItemType)).
 #include "util/Queue.h"
 #include "util/String.h"
 #include "system/SetupSystem.h"
@@ -64,6 +65,23 @@ template<> struct IT<int>
    static int Val(const int & x) {return x;}
    static int Tag(const int &) {return 0;}
 };
+// item types whose inline buffer is NOT SMALL_QUEUE_SIZE slots long (ACTUAL_SMALL_QUEUE_SIZE depends on sizeof(ItemType): 8 slots for 1-byte items, 4 for 2-byte items)
+template<> struct IT<uint8>
+{
+   enum {OWNING = 0, MOVABLE = 1};
+   static const char * Name() {return "uint8";}
+   static uint8 Make(int v) {return (uint8) v;}
+   static int Val(const uint8 & x) {return x;}
+   static int Tag(const uint8 &) {return 0;}
+};
+template<> struct IT<uint16>
+{
+   enum {OWNING = 0, MOVABLE = 1};
+   static const char * Name() {return "uint16";}
+   static uint16 Make(int v) {return (uint16) v;}
+   static int Val(const uint16 & x) {return x;}
+   static int Tag(const uint16 &) {return 0;}
+};
 template<> struct IT<String>
 {
    enum {OWNING = 1, MOVABLE = 1};
@@ -98,7 +116,7 @@ template<> struct IT<Tok>
    X(Clear) X(FastClear) X(EnsureSize) X(EnsureSizeSet) X(EnsureSizeX) X(EnsureSizeSetX) X(EnsureCanAdd) X(ShrinkToFit) X(Normalize) \
    X(IndexOf) X(LastIndexOf) X(Contains) X(StartsWith) X(EndsWith) X(StartsWithQ) X(EndsWithQ) X(Cmp) X(CmpSelf) X(Iter) \
    X(Swap) X(Reverse) X(Sort) \
-   X(SwapContents) X(CopyFrom) X(Assign) X(CopyCtor) X(AssignSelf) X(CopyFromSelf) X(MoveAssign) X(Plunder) X(MoveCtor) X(MoveAway) X(Adopt) X(Release)
+   X(SwapContents) X(SwapContentsRev) X(CopyFrom) X(Assign) X(CopyCtor) X(AssignSelf) X(CopyFromSelf) X(MoveAssign) X(Plunder) X(MoveCtor) X(MoveAway) X(Adopt) X(Release)
 
 enum Op {
 #define X(n) OP_##n,
@@ -129,7 +147,7 @@ static int GroupOf(int op)
       case OP_Sort: case OP_RemoveDup: return G_SORT;
       case OP_Reverse: return G_REVERSE;
       case OP_EnsureSizeSet: case OP_EnsureSizeSetX: case OP_RemoveHeadMulti: case OP_RemoveTailMulti: return G_SETSIZE;
-      case OP_SwapContents: case OP_CopyFrom: case OP_Assign: case OP_CopyCtor: case OP_MoveAssign: case OP_Plunder: case OP_MoveCtor: case OP_MoveAway: return G_WHOLE;
+      case OP_SwapContents: case OP_SwapContentsRev: case OP_CopyFrom: case OP_Assign: case OP_CopyCtor: case OP_MoveAssign: case OP_Plunder: case OP_MoveCtor: case OP_MoveAway: return G_WHOLE;
       default: return G_OTHER;
    }
 }
@@ -173,6 +191,16 @@ struct Coverage
    // the capacities the classes are about are MEASURED on the library as compiled (they depend on SMALL_QUEUE_SIZE, sizeof(ItemType) and the growth policy):
    // caps[0] = the inline buffer, caps[1] = what EnsureSize(inline+1) allocates, caps[2] = what adding inline+1 items one by one grows to
    std::vector<uint32> caps; uint32 inlineCap;
+   // exchanges between an inline-buffer Queue and a heap Queue: (this Queue inline / heap, its number of items 0..inline capacity, other Queue inline / heap, call) -> calls
+   std::map<uint32, long> swapCells;
+   static int SwapOpIndex(int op) {return (op == OP_SwapContents) ? 0 : ((op == OP_SwapContentsRev) ? 1 : ((op == OP_Plunder) ? 2 : ((op == OP_MoveAssign) ? 3 : ((op == OP_MoveAway) ? 4 : -1))));}
+   static const char * SwapOpName(int i) {const char * n[] = {"SwapContents", "SwapContentsRev", "Plunder", "MoveAssign", "MoveAway"}; return n[i];}
+   static uint32 SwapCell(bool qInline, uint32 k, bool oInline, int opi) {return ((qInline?0u:1u)<<24)|(k<<16)|((oInline?0u:1u)<<8)|(uint32) opi;}
+   void NoteSwap(const RingPos & before, bool otherInline, bool otherAllocated, int op)
+   {
+      const int opi = SwapOpIndex(op); if ((opi < 0)||(before.size > inlineCap)||(!before.allocated)||(!otherAllocated)) return;
+      swapCells[SwapCell(before.inl, before.size, otherInline, opi)]++;
+   }
    Coverage() : wrappedCalls(0), calls(0), grows(0), inlineCalls(0), heapCalls(0), inlineCap(0) {}
    bool IsCap(uint32 c) const {for (size_t i=0; i<caps.size(); i++) if (caps[i] == c) return true; return false;}
    // the head offsets wanted for a capacity: all of them, or (large capacities) the ones next to the two ends and in the middle
@@ -202,6 +230,7 @@ struct Coverage
    {
       tuples.insert(c.tuples.begin(), c.tuples.end()); for (std::map<uint32, long>::const_iterator it = c.cells.begin(); it != c.cells.end(); ++it) cells[it->first] += it->second;
       if (caps.empty()) {caps = c.caps; inlineCap = c.inlineCap;}
+      for (std::map<uint32, long>::const_iterator it = c.swapCells.begin(); it != c.swapCells.end(); ++it) swapCells[it->first] += it->second;
       wrappedCalls += c.wrappedCalls; calls += c.calls; grows += c.grows; inlineCalls += c.inlineCalls; heapCalls += c.heapCalls;
       opsOnWrapped.insert(c.opsOnWrapped.begin(), c.opsOnWrapped.end()); opsSeen.insert(c.opsSeen.begin(), c.opsSeen.end());
    }
@@ -229,7 +258,12 @@ struct Coverage
             char k[32]; snprintf(k, sizeof(k), "cap%u_head%u", caps[ci], h); table.set(k, row);
          }
       }
-      sum.set("inline_capacity", mj::Value::Int(inlineCap)).set("ring_capacities", cj);
+      long swant = 0, shit = 0;
+      for (int qi=0; qi<2; qi++) for (uint32 k=0; k<=inlineCap; k++) for (int oi=0; oi<2; oi++) for (int opi=0; opi<5; opi++) {
+         std::map<uint32, long>::const_iterator it = swapCells.find(SwapCell(qi == 0, k, oi == 0, opi)); const long n = (it == swapCells.end()) ? 0 : it->second;
+         swant++; want++; if (n > 0) {shit++; hit++;} else {char b[96]; snprintf(b, sizeof(b), "exchange/%s%u/%s/%s", qi ? "heap" : "inline", k, oi ? "heap" : "inline", SwapOpName(opi)); missing.push(mj::Value::Str(b));}
+      }
+      sum.set("inline_capacity", mj::Value::Int(inlineCap)).set("ring_capacities", cj).set("exchange_classes_wanted", mj::Value::Int(swant)).set("exchange_classes_hit", mj::Value::Int(shit));
       sum.set("ring_classes_wanted", mj::Value::Int(want)).set("ring_classes_hit", mj::Value::Int(hit)).set("ring_classes_missing", missing).set("ring_classes", table);
    }
 };
@@ -242,11 +276,12 @@ template<class T> struct Subject
    typedef Queue<T> Q;
    typedef IT<T> I;
    Q * q;
+   bool plainOther;         // build the other Queue without pre-allocating (so that its storage follows from its length alone)
    bool inlineMayBeStale;   // the known finding about copy-only owning items has been triggered on this Queue object
    uint32 otherCounter;
    Coverage * cov;
 
-   Subject(int startConfig, Coverage * c) : q(NULL), inlineMayBeStale(false), otherCounter(0), cov(c)
+   Subject(int startConfig, Coverage * c) : q(NULL), plainOther(false), inlineMayBeStale(false), otherCounter(0), cov(c)
    {
       switch(startConfig & 3) {
          case 0: q = new Q; break;                                                                      // nothing allocated yet
@@ -265,6 +300,10 @@ template<class T> struct Subject
       {Q x; (void) x.EnsureSize(s+1); const uint32 c = x.GetNumAllocatedItemSlots(); if ((!cov.IsCap(c))&&(c < 250)) cov.caps.push_back(c);}
       {Q x; for (uint32 i=0; i<=s; i++) (void) x.AddTail(I::Make(1)); const uint32 c = x.GetNumAllocatedItemSlots(); if ((!cov.IsCap(c))&&(c < 250)) cov.caps.push_back(c);}
    }
+   // a number of slots "that cannot be had" (codes 95..99): the runs are made with a 4 GB allocation limit (vlib's ASAN_OPTIONS), under which 0x7FFFFFFF, 0x80000000
+   // and 0xFFFFFFFE items CAN be had when an item is smaller than 4 bytes (and success would be as documented as failure); for those item types the value
+   // that stands for the class is 0xFFFFFFFF, which the library refuses without trying
+   static uint32 USlots(int x) {return ((x >= 95)&&(sizeof(T) < 4)) ? MUSCLE_NO_LIMIT : U(x);}
    static bool IsInline(const Q & x) {const char * r = (const char *) x.GetRawArrayPointer(); const char * o = (const char *) &x; return (r != NULL)&&(r >= o)&&(r < o+sizeof(Q));}
    static RingPos PosOf(const Q & x)
    {
@@ -322,7 +361,7 @@ template<class T> struct Subject
 
    Q * MakeOther(const IV & src)
    {
-      Q * o = new Q; const uint32 variant = (otherCounter++) & 3; const uint32 n = (uint32) src.size();
+      Q * o = new Q; uint32 variant = (otherCounter++) & 3; const uint32 n = (uint32) src.size(); if ((plainOther)&&(variant == 2)) variant = 0;
       switch(variant) {
          case 0: for (uint32 i=0; i<n; i++) (void) o->AddTail(I::Make(src[i])); break;
          case 1: for (uint32 i=n; i>0; i--) (void) o->AddHead(I::Make(src[i-1])); break;                 // head offset at the end of the array
@@ -405,12 +444,12 @@ template<class T> struct Subject
 
          case OP_Clear:         q->Clear(c.a != 0); break;
          case OP_FastClear:     if (I::OWNING) return false; q->FastClear(); break;
-         case OP_EnsureSize:    ob.st = S(q->EnsureSize(U(c.a))); break;
-         case OP_EnsureSizeSet: ob.st = S(q->EnsureSize(U(c.a), true)); break;
-         case OP_EnsureSizeX:   ob.st = S(q->EnsureSize(U(c.a), false, U(c.b), c.c != 0)); break;
-         case OP_EnsureSizeSetX: ob.st = S(q->EnsureSize(U(c.a), true, U(c.b), c.c != 0)); break;
-         case OP_EnsureCanAdd:  ob.st = S(q->EnsureCanAdd(U(c.a))); break;
-         case OP_ShrinkToFit:   ob.st = S(q->ShrinkToFit(U(c.a))); break;
+         case OP_EnsureSize:    ob.st = S(q->EnsureSize(USlots(c.a))); break;
+         case OP_EnsureSizeSet: ob.st = S(q->EnsureSize(USlots(c.a), true)); break;
+         case OP_EnsureSizeX:   ob.st = S(q->EnsureSize(USlots(c.a), false, USlots(c.b), c.c != 0)); break;
+         case OP_EnsureSizeSetX: ob.st = S(q->EnsureSize(USlots(c.a), true, USlots(c.b), c.c != 0)); break;
+         case OP_EnsureCanAdd:  ob.st = S(q->EnsureCanAdd(USlots(c.a))); break;
+         case OP_ShrinkToFit:   ob.st = S(q->ShrinkToFit(USlots(c.a))); break;
          case OP_Normalize: {
             q->Normalize(); uint32 l0 = 0, l1 = 0; (void) q->GetArrayPointer(0, l0);
             if ((!q->IsNormalized())||(q->GetArrayPointer(1, l1) != NULL)||(l0 != q->GetNumItems())) ob.bad.push_back("after Normalize() the items are not contiguous in memory (IsNormalized() / GetArrayPointer)");
@@ -449,11 +488,12 @@ template<class T> struct Subject
             if (!same) ob.bad.push_back("Sort() changed the order of items that compare equal (documented: stable sort)");
          } break;
 
-         case OP_SwapContents: case OP_MoveAssign: case OP_Plunder: {
+         case OP_SwapContents: case OP_SwapContentsRev: case OP_MoveAssign: case OP_Plunder: {
             other = MakeOther(c.src); readOther = true;
+            if (cov) cov->NoteSwap(before, IsInline(*other), other->GetRawArrayPointer() != NULL, c.op);
             // known finding (copy-only owning items): the inline buffer of the Queue that hands its items over keeps copies of them
             if ((I::OWNING)&&(!I::MOVABLE)&&(IsInline(*q))&&(q->HasItems())&&(!IsInline(*other))) inlineMayBeStale = true;
-            if (c.op == OP_SwapContents) q->SwapContents(*other); else if (c.op == OP_MoveAssign) *q = std::move(*other); else q->Plunder(*other);
+            if (c.op == OP_SwapContents) q->SwapContents(*other); else if (c.op == OP_SwapContentsRev) other->SwapContents(*q); else if (c.op == OP_MoveAssign) *q = std::move(*other); else q->Plunder(*other);
          } break;
          case OP_CopyFrom:     other = MakeOther(c.src); readOther = true; ob.st = S(q->CopyFrom(*other)); break;
          case OP_Assign:       other = MakeOther(c.src); readOther = true; *q = *other; break;
@@ -461,7 +501,7 @@ template<class T> struct Subject
          case OP_AssignSelf:   {Q & alias = *q; *q = alias;} break;
          case OP_CopyFromSelf: ob.st = S(q->CopyFrom(*q)); break;
          case OP_MoveCtor:     {other = q; readOther = true; q = new Q(std::move(*other)); inlineMayBeStale = false;} break;
-         case OP_MoveAway:     other = MakeOther(c.src); readOther = true; *other = std::move(*q); q->Clear(); break;    // what a moved-from Queue holds is not documented: it is cleared before it is used again
+         case OP_MoveAway:     other = MakeOther(c.src); readOther = true; if (cov) cov->NoteSwap(before, IsInline(*other), other->GetRawArrayPointer() != NULL, c.op); *other = std::move(*q); q->Clear(); break;    // what a moved-from Queue holds is not documented: it is cleared before it is used again
          case OP_Adopt: {
             if ((c.a < (int) ns)||(c.a > 100000)) return false;
             // the array handed over: the items of src as far as they are declared valid, default items in the room to grow (what its owner must leave there
@@ -575,33 +615,31 @@ template<class T> static void ReplayOne(const mj::Value & beh, int startConfig, 
    tot.followed++;
 }
 
-static int Replay(const char * inFile, const char * outFile, const char * onlyType)
+template<class T> static int ReplayType(const char * inFile, const char * outFile)
 {
    FILE * in = fopen(inFile, "r"); FILE * out = fopen(outFile, "w");
    if ((!in)||(!out)) {fprintf(stderr, "cannot open files\n"); return 2;}
-   std::string line; long nb = 0; ReplayTotals tot[3]; Coverage cov[3];
-   Subject<int>::MeasureCaps(cov[0]); Subject<String>::MeasureCaps(cov[1]); Subject<Tok>::MeasureCaps(cov[2]);
+   std::string line; long nb = 0; ReplayTotals tot; Coverage cov; Subject<T>::MeasureCaps(cov);
    while (mj::ReadLine(in, line)) {
       mj::Value beh; if (!mj::Parse(line, beh)) {fprintf(stderr, "bad json\n"); return 2;}
       nb++;
-      for (int sc=0; sc<4; sc++) {
-         if ((!onlyType)||(!strcmp(onlyType, "int")))    ReplayOne<int>(beh, sc, out, tot[0], cov[0]);
-         if ((!onlyType)||(!strcmp(onlyType, "String"))) ReplayOne<String>(beh, sc, out, tot[1], cov[1]);
-         if ((!onlyType)||(!strcmp(onlyType, "Tok")))    ReplayOne<Tok>(beh, sc, out, tot[2], cov[2]);
-      }
+      for (int sc=0; sc<4; sc++) ReplayOne<T>(beh, sc, out, tot, cov);
    }
-   const char * names[] = {"int", "String", "Tok"}; Coverage all; for (int i=0; i<3; i++) if ((!onlyType)||(!strcmp(onlyType, names[i]))) {all.caps = cov[i].caps; all.inlineCap = cov[i].inlineCap; break;} mj::Value sum = mj::Value::Obj(); long runs = 0, followed = 0, violated = 0, known = 0, steps = 0, cutShort = 0;
-   mj::Value per = mj::Value::Obj();
-   for (int i=0; i<3; i++) {
-      all.Merge(cov[i]); runs += tot[i].runs; followed += tot[i].followed; violated += tot[i].violated; known += tot[i].known; steps += tot[i].steps; cutShort += tot[i].cutShort;
-      mj::Value t = mj::Value::Obj(); t.set("runs", mj::Value::Int(tot[i].runs)).set("followed", mj::Value::Int(tot[i].followed)).set("violated", mj::Value::Int(tot[i].violated)).set("known", mj::Value::Int(tot[i].known)).set("cut_short", mj::Value::Int(tot[i].cutShort)).set("steps", mj::Value::Int(tot[i].steps));
-      cov[i].Report(t); t.o.pop_back();   // the per-class table only once, for all types together
-      per.set(names[i], t);
-   }
-   sum.set("summary", mj::Value::Bool(true)).set("behaviours", mj::Value::Int(nb)).set("runs", mj::Value::Int(runs)).set("followed", mj::Value::Int(followed)).set("violated", mj::Value::Int(violated)).set("known", mj::Value::Int(known)).set("cut_short", mj::Value::Int(cutShort)).set("steps", mj::Value::Int(steps));
-   all.Report(sum); sum.set("per_type", per);
+   mj::Value sum = mj::Value::Obj();
+   sum.set("summary", mj::Value::Bool(true)).set("type", mj::Value::Str(IT<T>::Name())).set("behaviours", mj::Value::Int(nb)).set("runs", mj::Value::Int(tot.runs)).set("followed", mj::Value::Int(tot.followed)).set("violated", mj::Value::Int(tot.violated))
+      .set("known", mj::Value::Int(tot.known)).set("cut_short", mj::Value::Int(tot.cutShort)).set("steps", mj::Value::Int(tot.steps));
+   cov.Report(sum);
    fprintf(out, "%s\n", mj::ToString(sum).c_str()); fclose(out); fclose(in);
    return 0;
+}
+static int Replay(const char * inFile, const char * outFile, const char * type)
+{
+   if (!strcmp(type, "int"))    return ReplayType<int>(inFile, outFile);
+   if (!strcmp(type, "String")) return ReplayType<String>(inFile, outFile);
+   if (!strcmp(type, "Tok"))    return ReplayType<Tok>(inFile, outFile);
+   if (!strcmp(type, "uint8"))  return ReplayType<uint8>(inFile, outFile);
+   if (!strcmp(type, "uint16")) return ReplayType<uint16>(inFile, outFile);
+   return 2;
 }
 
 // ---------------------------------------------------------------------------------------------------------------------------
@@ -613,7 +651,7 @@ template<class T> struct RandomDriver
    Rng rng; FILE * trace; FILE * out; Coverage cov; long lines, runsDone, violated, known, curRun, curStep; Sub * sub; IV cur; bool stop;
    static const int MAXV = 5;
 
-   RandomDriver(uint64 seed, FILE * t, FILE * o) : rng(seed), trace(t), out(o), lines(0), runsDone(0), violated(0), known(0), curRun(0), curStep(0), sub(NULL), stop(false), wantCursor(0) {Sub::MeasureCaps(cov); PlanWants();}
+   RandomDriver(uint64 seed, FILE * t, FILE * o) : rng(seed), trace(t), out(o), lines(0), runsDone(0), violated(0), known(0), curRun(0), curStep(0), sub(NULL), stop(false), wantCursor(0), swapCursor(0) {Sub::MeasureCaps(cov); PlanWants(); PlanSwapWants();}
 
    int V() {return 1+(int) rng.Below(MAXV);}
    int V0() {return rng.Chance(15) ? 0 : V();}
@@ -752,7 +790,7 @@ template<class T> struct RandomDriver
          case 25: case 26: if (Size()) Do(OP_Swap, ValidIdx(), ValidIdx()); break;
          case 27: case 28: Do(OP_Reverse, rng.Chance(50) ? 0 : Idx(), Lim()); break;
          case 29: case 30: Do(OP_Sort, rng.Chance(50) ? 0 : Idx(), Lim()); break;
-         case 31: case 32: Do(OP_SwapContents, 0, 0, 0, 0, src); break;
+         case 31: case 32: Do(rng.Chance(50) ? OP_SwapContents : OP_SwapContentsRev, 0, 0, 0, 0, src); break;
          case 33: Do(OP_CopyFrom, 0, 0, 0, 0, src); break;
          case 34: Do(OP_Assign, 0, 0, 0, 0, src); break;
          case 35: Do(OP_CopyCtor); break;
@@ -811,7 +849,8 @@ template<class T> struct RandomDriver
             default: Do(OP_EnsureSizeSetX, (int) rng.Below((uint32) Size()+2), (int) rng.Below(2), 1); break;
          } break;
          case G_WHOLE: switch(rng.Below(8)) {
-            case 0: case 1: Do(OP_SwapContents, 0, 0, 0, 0, src); break;
+            case 0: Do(OP_SwapContents, 0, 0, 0, 0, src); break;
+            case 1: Do(OP_SwapContentsRev, 0, 0, 0, 0, src); break;
             case 2: Do(OP_CopyFrom, 0, 0, 0, 0, src); break;
             case 3: Do(OP_Assign, 0, 0, 0, 0, src); break;
             case 4: Do(rng.Chance(50) ? OP_CopyCtor : OP_MoveCtor); break;
@@ -865,6 +904,31 @@ template<class T> struct RandomDriver
       TargetCall(rng.Chance(8) ? (int) G_OTHER : w.group);
    }
 
+   // exchanges between an inline-buffer Queue and a heap Queue, every class in turn: this Queue inline / heap with 0 .. inline capacity items,
+   // the other Queue inline / heap, SwapContents in both call directions, Plunder, move assignment in both directions
+   struct SwapWant {bool qInline; uint32 k; bool oInline; int opi;};
+   std::vector<SwapWant> swapWants; size_t swapCursor;
+   void PlanSwapWants()
+   {
+      for (int qi=0; qi<2; qi++) for (uint32 k=0; k<=cov.inlineCap; k++) for (int oi=0; oi<2; oi++) for (int opi=0; opi<5; opi++) {SwapWant w; w.qInline = (qi == 0); w.k = k; w.oInline = (oi == 0); w.opi = opi; swapWants.push_back(w);}
+      for (size_t i=swapWants.size(); i>1; i--) std::swap(swapWants[i-1], swapWants[rng.Below((uint32) i)]);
+      swapCursor = 0;
+   }
+   void ExchangeEpisode()
+   {
+      if (swapWants.empty()) return;
+      const SwapWant w = swapWants[(swapCursor++) % swapWants.size()]; const uint32 s = cov.inlineCap;
+      Do(OP_Clear, 1); Do(OP_EnsureSize, w.qInline ? 1 : (int) s+1);
+      for (uint32 i=0; (i<w.k)&&(!stop); i++) Do(rng.Chance(80) ? OP_AddTail : OP_AddHead, 0, 0, 0, V());
+      if (stop) return;
+      const RingPos p = Pos(); if ((p.inl != w.qInline)||(p.size != w.k)) return;
+      IV src; const uint32 len = w.oInline ? (1+rng.Below(s)) : (s+1+rng.Below(2)); for (uint32 i=0; i<len; i++) src.push_back(V0());
+      const int ops[] = {OP_SwapContents, OP_SwapContentsRev, OP_Plunder, OP_MoveAssign, OP_MoveAway};
+      sub->plainOther = true; Do(ops[w.opi], 0, 0, 0, 0, src); if (sub) sub->plainOther = false;
+      // and a few calls on what the exchange left behind
+      const uint32 k = 1+rng.Below(3); for (uint32 i=0; (i<k)&&(!stop); i++) RandomCall();
+   }
+
    void Run(long run, long nops)
    {
       curRun = run; curStep = 0; stop = false; cur.clear();
@@ -873,7 +937,8 @@ template<class T> struct RandomDriver
       for (long guard=0; (guard < nops*4)&&(curStep < nops)&&(!stop); guard++) {
          const uint32 x = rng.Below(100);
          if (x < 30) RingEpisode();
-         else if (x < 33) {const int want = 12+(int) rng.Below(10); for (int g=0; (g < 64)&&(Size() < want)&&(!stop); g++) Do(rng.Chance(50) ? OP_AddTail : OP_AddHead, 0, 0, 0, V()); Do(OP_Sort, rng.Chance(70) ? 0 : Idx(), Lim());}    // long enough for the merge step of Sort
+         else if (x < 48) ExchangeEpisode();
+         else if (x < 51) {const int want = 12+(int) rng.Below(10); for (int g=0; (g < 64)&&(Size() < want)&&(!stop); g++) Do(rng.Chance(50) ? OP_AddTail : OP_AddHead, 0, 0, 0, V()); Do(OP_Sort, rng.Chance(70) ? 0 : Idx(), Lim());}    // long enough for the merge step of Sort
          else {const uint32 k = 1+rng.Below(6); for (uint32 i=0; i<k; i++) RandomCall();}
       }
       delete sub; sub = NULL; runsDone++;
@@ -1001,14 +1066,16 @@ int main(int argc, char ** argv)
    if (__sanitizer_set_death_callback) __sanitizer_set_death_callback(OnDeath);
    signal(SIGALRM, OnTick); alarm(20);
    signal(SIGABRT, OnAbort);
-   if ((argc >= 4)&&(!strcmp(argv[1], "replay"))) return Replay(argv[2], argv[3], (argc > 4) ? argv[4] : NULL);
+   if ((argc >= 4)&&(!strcmp(argv[1], "replay"))) return Replay(argv[2], argv[3], (argc > 4) ? argv[4] : "int");
    if ((argc >= 8)&&(!strcmp(argv[1], "random"))) {
       const uint64 seed = (uint64) strtoull(argv[3], NULL, 10); const long runs = atol(argv[4]), nops = atol(argv[5]);
       if (!strcmp(argv[2], "int"))    return Random<int>(seed, runs, nops, argv[6], argv[7]);
       if (!strcmp(argv[2], "String")) return Random<String>(seed, runs, nops, argv[6], argv[7]);
       if (!strcmp(argv[2], "Tok"))    return Random<Tok>(seed, runs, nops, argv[6], argv[7]);
+      if (!strcmp(argv[2], "uint8"))  return Random<uint8>(seed, runs, nops, argv[6], argv[7]);
+      if (!strcmp(argv[2], "uint16")) return Random<uint16>(seed, runs, nops, argv[6], argv[7]);
    }
    if ((argc >= 4)&&(!strcmp(argv[1], "directed"))) return Directed(argv[2], argv[3]);
-   fprintf(stderr, "usage: qu replay <behaviours> <report> [int|String|Tok] | qu random <int|String|Tok> <seed> <runs> <ops> <trace> <report> | qu directed <swapstale|shrinkoverflow|addheadself|ensuresizerealloc|addheadstart|extraoverflow|extraignored> <report>\n");
+   fprintf(stderr, "usage: qu replay <behaviours> <report> <int|String|Tok|uint8|uint16> | qu random <int|String|Tok|uint8|uint16> <seed> <runs> <ops> <trace> <report> | qu directed <swapstale|shrinkoverflow|addheadself|ensuresizerealloc|addheadstart|extraoverflow|extraignored> <report>\n");
    return 2;
 }
